@@ -31,6 +31,7 @@ func main() {
 	rep := NewReport(kind, *seed)
 	var terms []string
 	var require, caseType string
+	fn := "mismatches"
 	lo, hi := 0, *n
 	if *only >= 0 {
 		lo, hi = *only, *only+1
@@ -41,6 +42,13 @@ func main() {
 		ta := NewTestApp(GenOpts{Time: time.Unix(1690000000, 0).UTC()})
 		for i := lo; i < hi; i++ {
 			terms = append(terms, runVestCase(ta, *seed, i, rep, *profile))
+			rep.Cases++
+		}
+	case "distr":
+		require, caseType, fn = "Distributor", "dcase", "dmismatches"
+		ta := NewTestApp(GenOpts{Time: time.Unix(1690000000, 0).UTC()})
+		for i := lo; i < hi; i++ {
+			terms = append(terms, runDistrCase(ta, *seed, i, rep, *profile))
 			rep.Cases++
 		}
 	case "minter":
@@ -58,7 +66,7 @@ func main() {
 	if *profile != "" {
 		tag = kind + "_" + *profile
 	}
-	rep.Shards = writeShards(*out, tag, require, caseType, terms, *shards)
+	rep.Shards = writeShardsFn(*out, tag, require, caseType, fn, terms, *shards)
 	rep.Write(fmt.Sprintf("%s/report_%s.json", *out, tag))
 	fmt.Printf("harness %s: cases=%d ops=%d predfails=%d panics=%d\n", tag, rep.Cases, rep.Ops, len(rep.PredFails), len(rep.Panics))
 }
